@@ -236,7 +236,7 @@ def run_c37(pid, tier, replay):
             ("exh22", "MCReportRT", RT_CFG % dict(plain, files="FilesAE", maxdiags=2, budget=2, maxanns=2, maxedits=1,
                                                     maxtexts=1, stages="0", exportmin=1), None, None),
             ("sim", "MCReportRT", RT_CFG % dict(rich, files="FilesABE", maxdiags=4, budget=14, maxanns=3, maxedits=2,
-                                                  maxtexts=2, stages="0, 1", exportmin=2), 300, 24),
+                                                  maxtexts=2, stages="0, 1", exportmin=2), 150, 24),
         ]
         ops = dict(maxdiags=3, maxops=6, dist=1, basetag="t", num=40)
     verdict = vf.Verdict(pid)
@@ -379,8 +379,7 @@ def run_c36(pid, tier, replay):
         canon_runs = [("d2n3", dict(maxdiags=3, dist=2, exportmin=1, basetag="")),
                       ("d1n4", dict(maxdiags=4, dist=1, exportmin=4, basetag="t"))]
     else:
-        canon_runs = [("d1n3", dict(maxdiags=3, dist=1, exportmin=1, basetag="t")),
-                      ("d2n2", dict(maxdiags=2, dist=2, exportmin=2, basetag=""))]
+        canon_runs = [("d1n3", dict(maxdiags=3, dist=1, exportmin=1, basetag="t"))]
     canon_cases = canon_calls = tie_cases = 0
     selftested = False
     for name, p in canon_runs:
@@ -426,10 +425,10 @@ def run_c36(pid, tier, replay):
         ws_runs = [
             # (name, cfg params, simulate, depth, #acyclic, #cyclic)
             ("n2", dict(n="2", kinds=ALL_KINDS, maximports=2, rev="FALSE, TRUE"), None, None, 10 ** 6, 120),
-            ("n34", dict(n="3, 4", kinds=ALL_KINDS, maximports=2, rev="FALSE, TRUE"), 600, 6, 380, 90),
+            ("n34", dict(n="3, 4", kinds=ALL_KINDS, maximports=2, rev="FALSE, TRUE"), 600, 6, 300, 60),
         ]
         pars = ",".join(str(i) for i in range(1, 17))
-        reps, wsworkers = 3, 12
+        reps, wsworkers = 2, 12
     else:
         ws_runs = [
             ("n234", dict(n="2, 3, 4", kinds=ALL_KINDS, maximports=2, rev="FALSE, TRUE"), 80, 6, 70, 15),
